@@ -107,6 +107,7 @@ type FnVC struct {
 	depsCache map[*ssa.Function][]famSort
 	freshRefs map[string]bool
 	inTypeInv bool
+	idxTerms  []Term
 	unsupp    string
 }
 
@@ -295,7 +296,9 @@ func (v *FnVC) exprTextFor(kind string, ins ssa.Instruction) string {
 		_, ok := n.(ast.Expr)
 		return ok
 	}
+	v.w.indexByContainer = kind == "index"
 	t := v.w.ExprText(pos, want)
+	v.w.indexByContainer = false
 	if _, isRange := ins.(*ssa.IndexAddr); isRange && strings.HasPrefix(t, "for ") {
 		if k := strings.Index(t, "{"); k > 0 {
 			t = strings.TrimSpace(t[:k])
@@ -351,7 +354,7 @@ func (v *FnVC) assumeTyped(val Val, t types.Type, st *State, guard Term) {
 			v.typeInvariants(x, t, st, guard)
 		}
 	case SliceV:
-		v.sc.Assert(Implies(guard, And(Le(tZero, x.Len), Le(tZero, x.Off), Implies(Eq(x.Arr, tZero), Eq(x.Len, tZero)))))
+		v.sc.Assert(Implies(guard, And(Le(tZero, x.Len), Le(x.Len, IntLit(9223372036854775807)), Le(tZero, x.Off), Implies(Eq(x.Arr, tZero), Eq(x.Len, tZero)))))
 		if st != nil {
 			v.sc.Assert(Implies(guard, Le(x.Arr, st.allocPtr)))
 		}
@@ -1467,4 +1470,25 @@ func (w *World) GlobalID(k string) int {
 	id := len(w.globIDs) + 1
 	w.globIDs[k] = id
 	return id
+}
+
+// noteIndex records an index term used by the code (candidates for quantifier instantiation).
+func (v *FnVC) noteIndex(t Term) {
+	if len(t.S) > 200 {
+		return
+	}
+	for _, x := range v.idxTerms {
+		if x.S == t.S {
+			return
+		}
+	}
+	v.idxTerms = append(v.idxTerms, t)
+}
+
+func (v *FnVC) instTerms() []Term {
+	ts := v.idxTerms
+	if len(ts) > 6 {
+		ts = ts[len(ts)-6:]
+	}
+	return ts
 }
